@@ -21,6 +21,12 @@ func genName(rng *rand.Rand) string {
 		b := make([]byte, 1+rng.Intn(6)) // arbitrary bytes incl. NUL
 		rng.Read(b)
 		return string(b)
+	case 2:
+		// a leading NUL: such a name's reflog keys sort in front of the key of ("", u)
+		if rng.Intn(4) == 0 {
+			return "\x00"
+		}
+		return "\x00" + comps[rng.Intn(len(comps))]
 	}
 	n := 1 + rng.Intn(4)
 	p := make([]string, n)
@@ -209,7 +215,9 @@ func genTable(rng *rand.Rand, o genOpts) tableCase {
 				l.Time = uint64(1600000000 + rng.Intn(100000))
 			}
 			l.TZOffset = int16(rng.Intn(65536))
-			msgs := []string{"commit: x", "m", "", " lead", "trail ", "\ttab", "x\n", "y\n\n", "\n", "zz ", " wide"}
+			msgs := []string{"commit: x", "m", "", " lead", "trail ", "\ttab", "x\n", "y\n\n", "\n", "zz ", " wide",
+				// only trailing newlines are normalised: other trailing white space and control bytes stay
+				"crlf\r\n", "cr\r", "\r", "x\r\n\n", "vt\v\n", "ff\f", "nul\x00\n", "sp \n", "tab\t\n", "\xc3\xa9\n", "\r\r", "a\x00"}
 			l.Message = msgs[rng.Intn(len(msgs))]
 			if t.cfg.Exact && rng.Intn(3) == 0 {
 				l.Message = "multi\nline\nmessage"
